@@ -9,6 +9,7 @@ square root).  NOT proved: the numerical accuracy of erf/erfinv/gamma against th
 finiteness/positivity of the exp/log/power densities - these are validated numerically here against the standard
 library (math.erf, statistics.NormalDist().inv_cdf, math.gamma) with the property's tolerances."""
 import math
+import random
 import sys
 from fractions import Fraction
 from statistics import NormalDist
@@ -73,6 +74,8 @@ def erfinv_grid():
             if 0 < v < 1:
                 xs += [v, -v]
     xs += [math.nextafter(1.0, 0.0), -math.nextafter(1.0, 0.0), 0.0]
+    for k in (2, 3, 4, 5, 7, 8, 16, 31, 32, 33, 64, 1000, 2 ** 20, 2 ** 26, 2 ** 27):          # 1 - k ulp
+        xs += [1.0 - k * 2.0 ** -53, -(1.0 - k * 2.0 ** -53)]
     return xs
 
 
@@ -83,6 +86,7 @@ def gamma_grid():
     for i in range(1, 30):
         xs += [math.nextafter(float(i), 0.0), math.nextafter(float(i), 100.0), i + 1e-9, i + 0.5]
     xs += [1e-3, 1e-4, 1e-6, 1e-9]
+    xs += [10.0 ** -k for k in (12, 15, 20, 50, 100, 200, 300, 307)] + [3.7e-155, 2.5e-308, 6e-309]   # 1 / x up to 1.7e308
     return xs
 
 
@@ -255,7 +259,7 @@ ERF_INTS = [0, 1, 2, 3, 4, 5, 6, 7, 10, 11, 12, 13, 14, 15, 16, 31, 32, 100, 127
 class C18(Prop):
     id = "C18"
     anchored = ["src/pewlib/process/convolve.py"]
-    cases = {"quick": 420, "thorough": 8400}
+    cases = {"quick": 540, "thorough": 10800}
     rule = ("PARTIAL EVIDENCE. convolve: signals of length m..40 (dyadic values, incl. constant signals), kernels of every "
             "length 1..9 (odd and even; sum-to-one and arbitrary signed), compared exactly with the Lean mechanism and with the "
             "Lean specification (length, interior = ordinary convolution, constants reproduced). deconvolve: full "
@@ -305,6 +309,31 @@ class C18(Prop):
             "type holds; integer beta / inverse-gamma shapes up to 15 + 15 and 25, so gamma() is reached with integer-typed "
             "arguments up to 30), the size as Python int or numpy int16 / int32 / int64; same checks as for float parameters "
             "(a float32 parameter anywhere: axis 1e-6, unit sum 1e-5, weights 1e-5, exp underflow at -70). "
+            "FAR-TAIL CLASS (kernel:tail:*, ~7 % of the generated cases plus 69 targeted, every generator built from exp / log / "
+            "powers): parameters placed (location beyond the axis or between two samples, late part of an exponential tail, "
+            "log-location far from log x, inverse gamma far below / above its mode, a high beta power on an axis hugging 0, "
+            "widths up to 3e299 and rates down to 4e-320) so that EVERY sampled density is tiny: 1e-200 .. 1e-300, positive "
+            "but SUBNORMAL (half of the class: the sum of the densities is below 2.2e-308), at the underflow threshold, "
+            "exactly 0 everywhere.  Whether the float sum of the densities is positive is decided by the Lean model, not by "
+            "looking at the implementation (c18.kernel: tail): the density is a product of factors (exponential_factors_prod "
+            "... beta_factors_prod); at the axis point of largest modelled density, moved by +- the rounding of the axis, "
+            "every product of a sub-collection of the factors must lie in [8 * 2**-1074, 2**1000] (robustFactors; "
+            "robustFactors_spec: whatever the order of multiplication) - then finite non-negative weights with |sum - 1| <= "
+            "8 (n + 4) 2**-53 are demanded (normalise_approx; this tolerance now holds for every double-precision kernel case) "
+            "and every weight is compared with the model (tolerance widened by the subnormal step relative to the sum); below "
+            "that band, and where an intermediate value may overflow, the case is undetermined. HISTORY CLASSES "
+            "(kernel:history:*, ~5 % + 45 targeted; history:*, ~5 % + 16 targeted): a returned kernel is edited in place "
+            "(weights scaled, axis moved, zeroed, reversed, NaN) and the generator is asked again with equal arguments - the "
+            "same objects, hash-equal Python ints, numpy float64 - the second return value must meet the property and the "
+            "model like the first; convolve / deconvolve called 2-4 times on the same array objects: equal arguments again "
+            "after the result was edited in place, the kernel / signal arrays overwritten with new content (np.copyto) and "
+            "passed again. FLOAT-KERNEL CLASS (convolve:float-kernel:*, ~5 % + 36 targeted): the weights a generator returns "
+            "are the kernel of a pad-mode convolution (two public functions combined): length, interior = ordinary "
+            "convolution and constants reproduced, all within (m + 2) 2**-53 sum|psf| max|x| of the exact Lean result for the "
+            "returned weights taken as rationals. Kernels LONGER than the signal (convolve:n<m, ~3 % + 44 targeted, model "
+            "only: output length and constants); kernel lengths up to 32; constant signals with kernels that do not sum to "
+            "one (pad_conv_constant_scaled); deconvolution kernels up to 14 taps and signals up to 250 samples; generator "
+            "sizes up to 257 generated, 1000 / 2000 targeted for four generators and 100001 for the rational one. "
             "non-trivial = every case; distinct by canonical case hash")
     trusted = ["np.pad(mode='edge'), np.convolve(mode='valid'), np.linspace, np.stack, Python slicing as documented; "
                "irfft(rfft(c, r)/rfft(psf, r), r) equals the power-series quotient when the quotient has fewer than r "
@@ -313,7 +342,10 @@ class C18(Prop):
                "the driver's 40-digit exp / log / power and 30-digit sqrt (PewDriver/C18.lean: Taylor series in fixed point) "
                "are accurate to far better than the comparison tolerances; they are NOT part of any theorem (the theorems "
                "quantify over the special functions)",
-               "math.erf, math.gamma and statistics.NormalDist().inv_cdf are accurate to far better than the tolerances"]
+               "math.erf, math.gamma and statistics.NormalDist().inv_cdf are accurate to far better than the tolerances",
+               "far tails: the driver evaluates the modelled densities in 256-bit dyadic arithmetic (every operation rounded, "
+               "exp / log to 40 digits); a double-precision product of at most four factors is off by at most one step of the "
+               "subnormal grid per rounding, and np.exp / np.power return a positive subnormal for a true value above 8 steps"]
     assumptions = ["VALIDATED, NOT PROVED: accuracy of the erf (5e-4 abs), erfinv (6e-3 rel) and gamma (3e-7 rel) approximations "
                    "against the true functions - checked on the dense grids and random arguments of this run only; Mathlib has no "
                    "erf and no verified bounds for these approximations",
@@ -325,9 +357,17 @@ class C18(Prop):
                    "erfinv is modelled as coded around pi, log1p and sqrt (erfinvWith; odd for every choice of them: erfinv_odd); "
                    "its accuracy is validated only",
                    "kernel parameter domain: the sampled axis lies inside the support of the density (beta: [0,1]; exponential, "
-                   "inverse gamma, log-Laplace, log-normal: x > 0, shift >= 1e-6) and at least one axis point carries density "
-                   "above the underflow range; outside that domain (e.g. beta with scale 2) the generators return NaN/negative "
-                   "weights and the property's 'density finite on that axis' excludes them",
+                   "inverse gamma, log-Laplace, log-normal: x > 0) and the Lean tail decision finds an axis point whose density "
+                   "is robustly a positive double (normal or subnormal; every sub-product of its factors in [8 * 2**-1074, "
+                   "2**1000]); UNDETERMINED: all densities below that band (underflow to exactly 0 on the whole axis gives "
+                   "0/0 = NaN: outside 'density finite on that axis' as before), and parameters for which an intermediate value "
+                   "of the coded expression may overflow although the density itself is representable (x ** (-alpha - 1) at a "
+                   "tiny x, gamma(alpha) * gamma(beta), sigma * sqrt(2 pi), beta ** alpha: pewlib then returns NaN - recorded "
+                   "as kernel:tail:intermediate-overflow:pewlib-returns-nan, see notes/EC18.md O1); outside the support (e.g. "
+                   "beta with scale 2) the generators return NaN/negative weights and the property excludes them",
+                   "histories: a second call with equal arguments is held to the same specification as the first (the model is a "
+                   "function of its arguments); for convolve / deconvolve the argument arrays are (re)filled before every step, "
+                   "so an implementation that returns a view of its input is judged on the values it was given",
                    "known finding C18-erfinv-underflow: erfinv(x) = 0 for 0 < |x| < 1e-160; the grid stops at 1e-99, one targeted "
                    "case exercises it and is routed through known()",
                    "deconvolve is checked on first-tap-dominant kernels ('well-conditioned'; |p0| >= 1.25 sum|rest| inside "
@@ -343,14 +383,19 @@ class C18(Prop):
                    "subexpressions (size*scale + shift, a*(a - b), 2*power) are exact; inversegamma with two numpy-integer shapes "
                    "whose beta**alpha leaves their type is undetermined; unsigned numpy scalars as parameters or size are outside "
                    "the class (-_lambda, -size wrap around by numpy's rules)",
-                   "kernel cases are checked against the documented domain inside evaluate (triangular a <= 0 <= b, a < b and an "
-                   "axis point that carries density whichever way the float axis rounds; beta axis inside [0, 1]; one-sided "
-                   "generators x > 0, exponential x >= 0; symmetric generators: an axis point within the underflow range of the "
-                   "location); a case outside it (only a shrinker can produce one) is undetermined, never a violation"]
+                   "kernel cases are checked against the documented domain inside evaluate (triangular a <= 0 <= b, a < b, an "
+                   "axis point that carries density whichever way the float axis rounds, magnitudes within 1e+-150; beta axis "
+                   "inside [0, 1]; one-sided generators x > 0, exponential x >= 0; the eight transcendental generators: the Lean "
+                   "tail decision); a case outside it is undetermined, never a violation"]
 
     # ------------------------------------------------------------------ generation
     def gen_psf(self, rng, m, unit):
         if unit:
+            if m > 9:                                            # 32 units thrown at m taps
+                w = [0] * m
+                for _ in range(32):
+                    w[rng.randrange(m)] += 1
+                return w
             while True:
                 w = [rng.randint(0, 12) for _ in range(m - 1)]
                 last = 32 - sum(w)
@@ -432,7 +477,16 @@ class C18(Prop):
     def generate(self, rng, tier):
         kind = rng.choice(["convolve"] * 4 + ["deconv"] * 3 + ["deconv-raw"] + ["kernel"] * 4 + ["erf", "erfinv", "gamma"]
                           + ["kernel-boundary"] * 3 + ["convolve-dtype"] * 2 + ["deconv-dtype"] * 3
-                          + ["special-argtype"] * 2 + ["kernel-param-type"] * 2)
+                          + ["special-argtype"] * 2 + ["kernel-param-type"] * 2 + ["kernel-tail"] * 3 + ["kernel-history"] * 2
+                          + ["convolve-kernel"] * 2 + ["history"] * 2)
+        if kind == "convolve-kernel":
+            return self.gen_convolve_kernel(rng)
+        if kind == "history":
+            return self.gen_history(rng)
+        if kind == "kernel-tail":
+            return self.gen_kernel_tail(rng)
+        if kind == "kernel-history":
+            return self.gen_kernel_history(rng)
         if kind == "special-argtype":
             return self.gen_special_argtype(rng)
         if kind == "kernel-param-type":
@@ -444,16 +498,19 @@ class C18(Prop):
         if kind == "deconv-dtype":
             return self.gen_deconv_dtype(rng)
         if kind == "convolve":
-            m = rng.choice([1, 2, 3, 4, 5, 6, 7, 8, 9])
-            n = m if rng.random() < 0.15 else rng.randint(m, 40)
+            m = rng.choice([1, 2, 3, 4, 5, 6, 7, 8, 9, 2, 3, 12, 17, 32])
+            how = rng.random()
+            # 15 % as short as the kernel, 8 % SHORTER than the kernel (outside the quantifier: model only)
+            n = m if how < 0.15 else rng.randint(1, m - 1) if how < 0.23 and m > 1 else rng.randint(m, max(40, m + 8))
             const = rng.random() < 0.25
-            unit = const or rng.random() < 0.5
+            unit = rng.random() < (0.75 if const else 0.5)      # a constant signal also meets kernels that do not sum to one
             c = rng.randint(-400, 400)
             x = [c] * n if const else [rng.randint(-400, 400) for _ in range(n)]
             return {"kind": kind, "x": x, "psf": self.gen_psf(rng, m, unit)}
         if kind == "deconv":
-            m = rng.choice([1, 2, 3, 3, 4, 5, 6])
-            n = rng.choice([m, m + 1, m + 2]) if rng.random() < 0.15 else rng.randint(max(m, 3), 40)
+            m = rng.choice([1, 2, 3, 3, 4, 5, 6, 1, 2, 9, 14])
+            how = rng.random()
+            n = rng.choice([m, m + 1, m + 2]) if how < 0.15 else rng.randint(100, 250) if how < 0.2 else rng.randint(max(m, 3), 40)
             x = [rng.choice([-1, 1]) * rng.randint(1, 100) if rng.random() < 0.3 else rng.randint(1, 100) for _ in range(n)]
             x = self.put_zeros(rng, x)
             return {"kind": kind, "x": x, "psf": self.gen_dominant(rng, m), "mode": rng.choice(["valid", "same"])}
@@ -481,7 +538,7 @@ class C18(Prop):
 
     def gen_kernel(self, rng, name=None):
         name = name or rng.choice(KERNELS)
-        size = rng.choice([2, 2, 3, 4, 5, 10, 10, 17, 32, 64])
+        size = rng.choice([2, 2, 3, 4, 5, 10, 10, 17, 32, 64, 128, 257])
         r2 = lambda lo, hi: round(rng.uniform(lo, hi), rng.choice([0, 1, 2, 6]))
         case = {"kind": "kernel", "name": name, "size": size}
         if name == "beta":
@@ -581,6 +638,162 @@ class C18(Prop):
                 case["args"].append(rng.choice([1, 2, 2, 2.0, 3, 4, 5, 6, 8]))
         return case
 
+    # -- class "kernel:tail": parameters placed so that every sampled density is tiny - 1e-200 .. 1e-300, SUBNORMAL
+    #    (below 2.2e-308), at the underflow threshold, or exactly 0 everywhere.  The generator aims (in Python floats,
+    #    only to build the input) at a target for the logarithm of the largest sampled density; what the densities
+    #    really are, and whether their float sum is positive, is decided by the Lean model (c18.kernel: tail)
+    TAIL_BANDS = {"subnormal": (-737.0, -712.0), "tiny-normal": (-690.0, -465.0), "threshold": (-749.0, -740.0),
+                  "all-zero": (-1200.0, -760.0)}
+
+    @staticmethod
+    def bisect(f, lo, hi, n=200):
+        """a root of the monotone f on [lo, hi] (None when there is no sign change)"""
+        flo, fhi = f(lo), f(hi)
+        if not (math.isfinite(flo) and math.isfinite(fhi)) or flo * fhi > 0:
+            return None
+        for _ in range(n):
+            mid = 0.5 * (lo + hi)
+            fm = f(mid)
+            if (fm > 0) == (flo > 0):
+                lo, flo = mid, fm
+            else:
+                hi = mid
+        return 0.5 * (lo + hi)
+
+    def gen_kernel_tail(self, rng, name=None, band=None):
+        name = name or rng.choice([k for k in KERNELS if k != "triangular"])
+        band = band or rng.choice(["subnormal"] * 5 + ["tiny-normal"] * 3 + ["threshold", "all-zero"])
+        # the target: the logarithm of the SMALLEST product of a sub-collection of the density's factors at the best
+        # axis point (a constant factor above 1 is left out: the exp / power factor alone must be representable)
+        L = rng.uniform(*self.TAIL_BANDS[band])
+        size = rng.choice([2, 2, 3, 4, 5, 9, 16, 33])
+        sig = lambda v: float(f"{v:.{rng.choice([3, 6, 12, 17])}g}")       # short and full-length mantissas
+        case = {"kind": "kernel", "name": name, "size": size, "tail": band}
+        if name in SYM_KERNELS:
+            scale = rng.choice([1.0, 1.0, 0.5, 2.0, -1.0, round(rng.uniform(0.1, 3.0), 3)])
+            shift = rng.choice([0.0, 0.0, 1.0, -2.5, round(rng.uniform(-5, 5), 2)])
+            first, last = -size * 0.5 * scale + shift, size * 0.5 * scale + shift
+            step = (last - first) / (size - 1)
+            # widths from narrow to so wide that the density is tiny everywhere (1 / (w sqrt(2 pi)) down to 1e-300)
+            w = rng.choice([1.0, 0.5, 2.0, 0.1, round(rng.uniform(0.05, 5.0), 3), 1e150, 1e250, 3e299])
+            power = rng.choice([1, 2, 2, 3, 4]) if name == "super_gaussian" else 1
+            lnc = min(0.0, -math.log(2 * w) if name == "laplace" else -math.log(w * math.sqrt(2 * math.pi)))
+            dist = lambda w_, lnc_: (w_ * max(0.0, lnc_ - L) if name == "laplace" else
+                                     w_ * (2 * max(0.0, lnc_ - L)) ** (1.0 / (2 * power)))   # distance at which the density is e**L
+            how = rng.choice(["beyond-the-last-point", "before-the-first-point", "between-two-points"])
+            if how == "between-two-points":
+                # a narrow peak half-way between two neighbouring samples: solve the width
+                i = rng.randrange(size - 1)
+                mid, d = first + (i + 0.5) * step, abs(step) / 2
+                lc = lambda w_: min(0.0, -math.log(2 * w_) if name == "laplace" else -math.log(w_ * math.sqrt(2 * math.pi)))
+                w2 = self.bisect(lambda w_: dist(w_, lc(w_)) - d, 1e-6 * d, d, 80)
+                if w2 is None:
+                    how = "beyond-the-last-point"
+                else:
+                    w, loc = sig(w2), mid
+            if how != "between-two-points":
+                d = dist(w, lnc)
+                hi_, lo_ = max(first, last), min(first, last)
+                loc = sig(hi_ + d) if how == "beyond-the-last-point" else sig(lo_ - d)
+            case.update(scale=scale, shift=shift, args=[w, loc] + ([power] if name == "super_gaussian" else []), how=how)
+        elif name == "exponential":
+            # rates down to subnormal ones: the density lambda * exp(-lambda x) is then tiny on the whole axis
+            lam = rng.choice([1.0, 0.5, 2.0, 5.0, 0.01, round(rng.uniform(0.05, 5.0), 3), 1e-250, 1e-305, 3e-310, 4e-320])
+            x0 = (min(0.0, math.log(lam)) - L) / lam if math.log(lam) > L + 5 else 1.0     # the smallest axis point
+            if not x0 < 1e300:
+                x0 = 1.0
+            scale = rng.choice([1.0, 1.0, 0.5, 2.0, round(rng.uniform(0.1, 3.0), 3), -1.0, -0.5])
+            shift = sig(x0) if scale > 0 else sig(x0 - size * scale)
+            case.update(scale=scale, shift=shift, args=[lam], how="late-part-of-the-tail")
+        elif name in ("lognormal", "loglaplace"):
+            scale = rng.choice([1.0, 1.0, 0.5, 2.0, round(rng.uniform(0.1, 3.0), 3)])
+            shift = rng.choice([1e-6, 1e-3, 0.5, 2.0, 1.0])
+            w = rng.choice([1.0, 0.5, 0.2, 2.0, round(rng.uniform(0.2, 3.0), 2)])
+            how = rng.choice(["mu-above-the-axis", "mu-below-the-axis"])
+            x = size * scale + shift if how == "mu-above-the-axis" else shift
+            sgn = 1.0 if how == "mu-above-the-axis" else -1.0
+            if name == "lognormal":
+                mu = math.log(x) + sgn * w * math.sqrt(max(0.0, 2 * (-L + min(0.0, -math.log(x * w * math.sqrt(2 * math.pi))))))
+            else:
+                mu = math.log(x) + sgn * w * max(0.0, -L + min(0.0, -math.log(2 * w * x)))
+            case.update(scale=scale, shift=shift, args=[w, sig(mu)], how=how)
+        elif name == "inversegamma":
+            alpha = rng.choice([1.0, 2.0, 3.0, 5.0, 0.5, 10.0, 20.0, round(rng.uniform(0.5, 25.0), 2)])
+            lg = math.lgamma(alpha)
+            how = rng.choice(["axis-far-below-the-mode", "axis-far-below-the-mode", "axis-far-above-the-mode"])
+            if how == "axis-far-above-the-mode" and alpha < 3:
+                how = "axis-far-below-the-mode"
+            if how == "axis-far-above-the-mode":             # the power-law tail x ** (-alpha - 1)
+                beta = rng.choice([1.0, 0.5, 2.0])
+                x0 = math.exp((min(0.0, alpha * math.log(beta) - lg) - L) / (alpha + 1))
+                shift, scale = sig(x0), sig(x0 * rng.choice([0.01, 0.1, 1.0]) / size)
+            else:                                            # exp(-beta / x) with beta far above every x
+                scale = rng.choice([1.0, 0.5, 2.0, round(rng.uniform(0.1, 3.0), 3)])
+                shift = rng.choice([1e-6, 1e-3, 0.5, 2.0])
+                x = size * scale + shift
+                f = lambda b: min(0.0, alpha * math.log(b) - lg) + min(0.0, -(alpha + 1) * math.log(x)) - b / x - L
+                beta = self.bisect(f, (alpha + 1) * x, 1e7 * x)
+                beta = sig(beta) if beta is not None else 800.0 * x
+            case.update(scale=scale, shift=shift, args=[alpha, beta], how=how)
+        else:  # beta: a high power of x on an axis that hugs 0 (x is exact there; 1 - x is not near 1)
+            a = rng.choice([5.0, 10.0, 25.0, 28.0, round(rng.uniform(4.0, 27.0), 1)])
+            b = rng.choice([1.0, 2.0, 1.5, 3.0])
+            if a + b > 30:
+                b = 1.0
+            lnB = math.lgamma(a) + math.lgamma(b) - math.lgamma(a + b)
+            xl = math.exp((L + max(0.0, lnB)) / (a - 1))     # the largest axis point
+            case["size"] = max(size, 3)
+            how = rng.choice(["axis-from-0", "axis-from-0", "axis-off-0", "descending-to-0"])
+            scale, shift = {"axis-from-0": (sig(xl), 0.0), "axis-off-0": (sig(xl / 2), sig(xl / 2)),
+                            "descending-to-0": (-sig(xl), sig(xl))}[how]
+            if how == "descending-to-0":
+                scale = -shift
+            case.update(scale=scale, shift=shift, args=[a, b], how=how)
+        return case
+
+    # -- class "kernel:history": a returned kernel is edited in place, then the generator is asked again with equal arguments
+    def gen_kernel_history(self, rng, name=None):
+        case = self.gen_kernel(rng, name) if rng.random() < 0.6 else self.gen_kernel_boundary(rng, name)
+        if rng.random() < 0.5:                               # whole-number parameters: 11 and 11.0 are equal and hash alike
+            case = self.gen_kernel_param_type(rng, name or case["name"], "int")
+            case.pop("ptype"), case.pop("sizetype")
+        case["history"] = {"edit": rng.choice(self.HIST_EDITS), "again": rng.choice(self.HIST_AGAIN)}
+        return case
+
+    def gen_convolve_kernel(self, rng):
+        g = self.gen_kernel(rng)
+        g.pop("kind")
+        g["size"] = rng.choice([2, 3, 4, 5, 8, 9, 10, 17]) if g["name"] != "beta" else rng.choice([3, 4, 5, 9, 10, 17])
+        if g["name"] == "triangular":                           # its parameters were drawn for the original size
+            g = {"name": "triangular", "size": g["size"], "args": [-float(g["size"]), float(g["size"])], "scale": 1.0, "shift": 0.0}
+        m = g["size"]
+        n = rng.randint(1, m - 1) if rng.random() < 0.08 else rng.randint(m, m + 30)
+        c = rng.randint(-400, 400)
+        x = [c] * n if rng.random() < 0.45 else [rng.randint(-400, 400) for _ in range(n)]
+        return {"kind": "convolve-kernel", "gen": g, "x": x}
+
+    def gen_history(self, rng, fn=None):
+        fn = fn or rng.choice(["convolve", "deconv"])
+        m = rng.choice([1, 2, 3, 4, 5, 6])
+        n = rng.randint(max(m, 3), 24)
+        mk_x = (lambda: [rng.randint(-400, 400) for _ in range(n)]) if fn == "convolve" else \
+            (lambda: self.put_zeros(rng, [rng.choice([-1, 1]) * rng.randint(1, 100) for _ in range(n)], lo=0.7))
+        mk_p = (lambda: self.gen_psf(rng, m, rng.random() < 0.5)) if fn == "convolve" else (lambda: self.gen_dominant(rng, m))
+        x, p = mk_x(), mk_p()
+        steps = [(x, p)]
+        for _ in range(rng.choice([1, 1, 2, 3])):
+            what = rng.choice(["equal-arguments", "equal-arguments", "new-kernel-content", "new-signal-content", "both-new"])
+            if what in ("new-kernel-content", "both-new"):
+                p = mk_p()
+            if what in ("new-signal-content", "both-new"):
+                x = mk_x()
+            steps.append((x, p))
+        mode = lambda: "pad" if fn == "convolve" else rng.choice(["valid", "same"])
+        md = mode()
+        return {"kind": "history", "fn": fn,
+                "steps": [{"x": list(a), "psf": list(b), "mode": md if rng.random() < 0.7 else mode(),
+                           "edit": rng.choice(self.HIST_RESULT_EDITS)} for a, b in steps]}
+
     # -- class "dtype": signals and kernels held in integer / single-precision containers
     def gen_dtypes(self, rng):
         while True:
@@ -594,7 +807,7 @@ class C18(Prop):
         m = rng.choice([1, 2, 3, 4, 5, 6, 7, 8, 9])
         n = m if rng.random() < 0.15 else rng.randint(m, 40)
         const = rng.random() < 0.25
-        unit = const or rng.random() < 0.5
+        unit = rng.random() < (0.75 if const else 0.5)
         lo, hi = (0, 9) if xdt == "uint8" else (-400, 400)
         c = rng.randint(lo, hi)
         x = [c] * n if const else [rng.randint(lo, hi) for _ in range(n)]
@@ -780,6 +993,81 @@ class C18(Prop):
         for size in (9, 11, 21):
             yield K("laplace", size, [1.0, 0.0], 1.0, 0.0)
             yield K("super_gaussian", size, [2.0, 0.0, 4], -1.0, 0.0)
+        # FAR TAILS: every sampled density tiny - positive but SUBNORMAL sums (the four inputs of seeded change C18-c2
+        # first), 1e-200 .. 1e-300, at the underflow threshold, exactly 0 everywhere (the last two: undetermined)
+        T = lambda name, size, args, scale, shift: {"kind": "kernel", "name": name, "size": size, "args": args,
+                                                    "scale": scale, "shift": shift, "tail": "subnormal"}
+        yield T("normal", 5, [1.0, 41.0], 1.0, 0.0)
+        yield T("normal", 2, [0.0262, 0.0], 1.0, 0.0)
+        yield T("exponential", 3, [1.0], 1.0, 735.0)
+        yield T("laplace", 2, [0.01, 0.0], 7.2, 0.0)
+        for name in KERNELS:
+            if name == "triangular":
+                continue
+            for k, band in enumerate(["subnormal"] * 4 + ["tiny-normal", "tiny-normal", "threshold", "all-zero"]):
+                yield self.gen_kernel_tail(random.Random(f"C18-tail-{name}-{k}"), name, band)
+        # an intermediate value overflows (x ** (-alpha - 1) = inf at the first axis point, times exp(-beta / x) = 0):
+        # undetermined, what pewlib returns is recorded (notes/EC18.md, observation O1)
+        yield {"kind": "kernel", "name": "inversegamma", "size": 3, "args": [51.0, 1.0], "scale": 1.0, "shift": 1e-6}
+        # magnitudes for the rational generator: supports and axes of the order 1e+-100
+        for mag in (1e100, 1e-100, 1e140, 1e-140):
+            yield K("triangular", 9, [-3.0 * mag, 2.0 * mag], mag, 0.0)
+            yield K("triangular", 10, [-5.0 * mag, 5.0 * mag], mag, 0.25 * mag)
+        # HISTORIES of the generators: the returned kernel edited in place, then equal arguments again
+        H = lambda name, size, args, scale, shift, edit, again: {"kind": "kernel", "name": name, "size": size, "args": args,
+                                                                 "scale": scale, "shift": shift,
+                                                                 "history": {"edit": edit, "again": again}}
+        for i, (name, args, scale, shift) in enumerate([
+                ("beta", [1.0, 2.0], 1.0, 0.0), ("exponential", [1.0], 1.0, 1e-6), ("inversegamma", [1.0, 1.0], 1.0, 1e-6),
+                ("laplace", [1.0, 1.0], 1.0, 0.0), ("loglaplace", [0.5, 0.0], 1.0, 1e-6), ("lognormal", [1.0, 0.0], 1.0, 1e-6),
+                ("normal", [1.0, 1.0], 1.0, 0.0), ("super_gaussian", [1.0, 0.0, 2.0], 1.0, 0.0),
+                ("triangular", [-5.0, 5.0], 1.0, 0.0)]):
+            for j, edit in enumerate(self.HIST_EDITS):
+                yield H(name, 10 if j % 2 else 5, args, scale, shift, edit, self.HIST_AGAIN[(i + j) % 3])
+        # LARGE SIZES (the model is linear in the size; 1e5 points for the rational generator)
+        yield K("triangular", 100001, [-30000.0, 20000.0], 1.0, 0.0)
+        yield {"kind": "kernel", "name": "normal", "size": 2000, "args": [60.0, 10.0], "scale": 1.0, "shift": 0.0}
+        yield {"kind": "kernel", "name": "exponential", "size": 1000, "args": [0.01], "scale": 1.0, "shift": 1e-6}
+        yield {"kind": "kernel", "name": "beta", "size": 1000, "args": [2.0, 3.5], "scale": 1.0, "shift": 0.0}
+        yield {"kind": "kernel", "name": "lognormal", "size": 1000, "args": [1.0, 3.0], "scale": 0.5, "shift": 1e-3}
+        # pad mode with kernels LONGER than the signal (outside the quantifier: length and constants vs the model), long kernels
+        for m in (2, 3, 4, 5, 8, 9, 17, 32):
+            unit = [32 // m] * (m - 1) + [32 - (32 // m) * (m - 1)]
+            for n in sorted({1, 2, m - 1}):
+                if n < m:
+                    yield {"kind": "convolve", "x": [4 * i - 6 for i in range(n)], "psf": [(-1) ** i * (i + 1) * 4 for i in range(m)]}
+                    yield {"kind": "convolve", "x": [20] * n, "psf": unit}
+            yield {"kind": "convolve", "x": [4 * i * i - 30 for i in range(m + 7)], "psf": unit}
+        # the weights a generator returns as the kernel of a pad-mode convolution (constants reproduced up to rounding)
+        for name, args, scale, shift in [("beta", [1.0, 2.0], 1.0, 0.0), ("exponential", [1.0], 1.0, 1e-6),
+                                         ("inversegamma", [1.0, 1.0], 1.0, 1e-6), ("laplace", [1.0, 1.0], 1.0, 0.0),
+                                         ("loglaplace", [0.5, 0.0], 1.0, 1e-6), ("lognormal", [1.0, 0.0], 1.0, 1e-6),
+                                         ("normal", [1.0, 1.0], 1.0, 0.0), ("super_gaussian", [1.0, 0.0, 2.0], 1.0, 0.0),
+                                         ("triangular", [-5.0, 5.0], 1.0, 0.0)]:
+            for size in (4, 9):
+                g = {"name": name, "size": size, "args": args, "scale": scale, "shift": shift}
+                yield {"kind": "convolve-kernel", "gen": g, "x": [37] * (size + 5)}
+                yield {"kind": "convolve-kernel", "gen": g, "x": [(7 * i * i) % 83 - 40 for i in range(size + 9)]}
+        # histories of convolve / deconvolve: equal arguments again after the result was edited, arrays reused with new content
+        for edit in self.HIST_RESULT_EDITS:
+            yield {"kind": "history", "fn": "convolve", "steps": [
+                {"x": [5, 3, 8, 1, 9, 2, 7], "psf": [8, 16, 8], "mode": "pad", "edit": edit},
+                {"x": [5, 3, 8, 1, 9, 2, 7], "psf": [8, 16, 8], "mode": "pad", "edit": edit},
+                {"x": [5, 3, 8, 1, 9, 2, 7], "psf": [4, 4, 24], "mode": "pad", "edit": edit},
+                {"x": [1, 1, 2, 3, 5, 8, 13], "psf": [4, 4, 24], "mode": "pad", "edit": edit}]}
+            yield {"kind": "history", "fn": "convolve", "steps": [
+                {"x": [12, 12, 12, 12], "psf": [32], "mode": "pad", "edit": edit},
+                {"x": [12, 12, 12, 12], "psf": [32], "mode": "pad", "edit": edit}]}
+            for mode in ("valid", "same"):
+                yield {"kind": "history", "fn": "deconv", "steps": [
+                    {"x": [0, 9, 5, 43, 2, 27, 4, 15, 24], "psf": [19, 10, 3], "mode": mode, "edit": edit},
+                    {"x": [0, 9, 5, 43, 2, 27, 4, 15, 24], "psf": [19, 10, 3], "mode": mode, "edit": edit},
+                    {"x": [0, 9, 5, 43, 2, 27, 4, 15, 24], "psf": [-20, 4, 5], "mode": mode, "edit": edit},
+                    {"x": [7, 0, 0, 0, 3, 0, 1, 6, 2], "psf": [-20, 4, 5], "mode": mode, "edit": edit}]}
+        # deconvolution with long well-conditioned kernels and long signals
+        for mode in ("valid", "same"):
+            yield {"kind": "deconv", "x": [(13 * i * i + 5 * i) % 41 - 11 for i in range(200)], "psf": [24, 5, -3, 2, 1, -1, 1, 0, 1, -1, 0, 1], "mode": mode}
+            yield {"kind": "deconv", "x": [(7 * i) % 23 - 8 for i in range(20)], "psf": [24] + [1, -1] * 7, "mode": mode}
         # signals / kernels in integer and single-precision containers, every mode
         sig = [5, 3, 8, 1, 9, 2, 7, 4, 6, 11, 12, 2, 10, 3, 9, 1, 8, 5, 7, 6, 4, 12, 3]
         for xdt, pdt in [("int64", "int64"), ("int32", "int32"), ("uint8", "uint8"), ("int32", "int64"), ("uint8", "int32"),
@@ -861,11 +1149,10 @@ class C18(Prop):
         pq = [Fraction(v, case.get("pden", 32)) for v in case["psf"]]
         n, m = len(xq), len(pq)
         why = dtype_domain(xdt, pdt, xq, pq)
-        if why is None and n < m:
-            why = "signal shorter than the kernel"
         if why is not None:                     # outside the class (only a shrinker / hand-written replay gets here)
             return outcome({}, {}, {}, spec_ok=True, model_ok=True, undetermined=True, features=["convolve:outside-domain"],
                            note=why)
+        inq = n >= m                            # the property's quantifier: signals at least as long as the kernel
         x, psf = np.array([float(v) for v in xq]).astype(xdt), np.array([float(v) for v in pq]).astype(pdt)
         rep = ctx.driver.call("c18.convolve", x=[core.rat(v) for v in xq], psf=[core.rat(v) for v in pq])
         hexs = lambda l: [float(v).hex() for v in l]
@@ -876,16 +1163,19 @@ class C18(Prop):
             other = {md: hexs(cv.convolve(x, psf, mode=md)) for md in ("full", "valid", "same")}
         except Exception as e:
             r = {"raises": type(e).__name__}
-            return outcome(r, {}, {}, spec_ok=False, model_ok=False, features=["convolve:raises"])
+            return outcome(r, {}, {}, spec_ok=not inq, model_ok=False, hyp=inq, features=["convolve:raises"])
         impl = {"values": hexs(vals), **other}
+        # the mechanism model (padEdge, then the valid convolution), and the same values from the entry-by-entry
+        # specification of the whole result (padConvSpec; pad_conv_eq_spec: the two agree for every input)
         model = {"values": hexs(fl(v) for v in rep["model"]), **{md: hexs(fl(v) for v in rep[md]) for md in other}}
+        entries_ok = rep["entries"] == rep["model"]
         sp = rep["spec"]
         spec = {"length": sp["length"], "interior": [[k, fl(v).hex()] for k, v in sp["interior"]],
                 "constant": None if sp["constant"] is None else fl(sp["constant"]).hex()}
         proj = {"length": len(vals), "interior": [[k, vals[k].hex()] for k, _ in sp["interior"] if k < len(vals)],
                 "constant": None if sp["constant"] is None else
                 (spec["constant"] if all(v.hex() == spec["constant"] for v in vals) else "not reproduced")}
-        feats = {"convolve", f"convolve:m={m}", "convolve:m-" + ("odd" if m % 2 else "even")}
+        feats = {"convolve", f"convolve:m={m}" if m <= 9 else "convolve:m>=10", "convolve:m-" + ("odd" if m % 2 else "even")}
         if n == m:
             feats.add("convolve:n=m")
         if sp["constant"] is not None:
@@ -893,7 +1183,146 @@ class C18(Prop):
         if sp["interior"]:
             feats.add("convolve:has-interior")
         feats |= self.dtype_features("convolve", xdt, pdt, out)
-        return outcome(impl, model, spec, spec_ok=core.canon(proj) == core.canon(spec), features=feats)
+        spec_ok = core.canon(proj) == core.canon(spec)
+        model_ok = entries_ok and core.canon(impl) == core.canon(model)
+        if not inq:
+            # a kernel longer than the signal: outside the quantifier.  The clauses that speak of every kernel length
+            # (output length, constants reproduced) are compared with the model; the edge values and what numpy's own
+            # modes return for swapped arguments are recorded only
+            feats.add("convolve:n<m(model-only)")
+            clauses_ok = entries_ok and len(vals) == len(rep["model"]) and proj["constant"] == spec["constant"]
+            if clauses_ok and not model_ok:
+                feats.add("convolve:n<m:differs-from-model-outside-the-quantifier(recorded only)")
+            spec_ok, model_ok = True, clauses_ok
+        return outcome(impl, model, spec, spec_ok=spec_ok, model_ok=model_ok, hyp=inq, features=feats)
+
+    # -- class "convolve:float-kernel": TWO PUBLIC FUNCTIONS COMBINED - the weights a kernel generator returns (they sum
+    #    to one up to rounding only, and are not dyadic) are the kernel of a pad-mode convolution
+    def eval_convolve_kernel(self, case, ctx):
+        from pewlib.process import convolve as cv
+
+        g = case["gen"]
+        xq = [Fraction(v, 4) for v in case["x"]]
+        n = len(xq)
+        sub = self.eval_kernel({"kind": "kernel", **g}, ctx)           # the kernel case itself must be inside its class
+        if sub["undetermined"] or not (sub["spec_ok"] and sub["model_ok"]) or g["size"] < 2:
+            return outcome({}, {}, {}, spec_ok=True, model_ok=True, undetermined=True,
+                           features=["convolve:float-kernel:kernel-outside-its-class"], note=sub["note"])
+        try:
+            psf = np.asarray(getattr(cv, g["name"])(g["size"], *g["args"], scale=g["scale"], shift=g["shift"]))[:, 1].copy()
+            x = np.array([float(v) for v in xq])
+            out = cv.convolve(x, psf, mode="pad")
+            vals = [float(v) for v in out]
+        except Exception as e:
+            return outcome({"raises": type(e).__name__}, {}, {}, spec_ok=False, model_ok=False, features=["convolve:raises"])
+        m = len(psf)
+        pq = [Fraction(float(v)) for v in psf]                       # the weights pewlib returned, exactly
+        rep = ctx.driver.call("c18.convolve", x=[core.rat(v) for v in xq], psf=[core.rat(v) for v in pq])
+        # a sum of m products in double precision: (m + 2) 2**-53 sum |psf_j| max |x|
+        tol = (m + 2) * 2.0 ** -53 * float(sum(abs(v) for v in pq)) * max([float(abs(v)) for v in xq] + [1e-300])
+        exact = [unrat(v) for v in rep["model"]]
+        close = lambda a, q: abs(Fraction(a) - q) <= Fraction(tol)
+        model_ok = len(vals) == len(exact) and all(close(a, q) for a, q in zip(vals, exact)) and rep["entries"] == rep["model"]
+        sp = rep["spec"]
+        inq = n >= m
+        interior_ok = all(k < len(vals) and close(vals[k], unrat(v)) for k, v in sp["interior"])
+        const = all(v == xq[0] for v in xq)
+        off = abs(sum(pq) - 1)                                        # how far the returned weights are from unit sum
+        # the hypothesis "the kernel sums to one" in floating point: within the rounding of a normalisation
+        unit = off <= Fraction(8 * (m + 4), 2 ** 53)
+        const_ok = (not (const and unit)) or all(abs(Fraction(a) - xq[0]) <= Fraction(tol) + off * abs(xq[0]) for a in vals)
+        impl = {"length": len(vals), "interior_is_ordinary_convolution": bool(interior_ok), "constant_reproduced": bool(const_ok)}
+        spec = {"length": n, "interior_is_ordinary_convolution": True, "constant_reproduced": True}
+        feats = {"convolve:float-kernel", "convolve:float-kernel:" + g["name"], "convolve:float-kernel:m-" + ("odd" if m % 2 else "even")}
+        if const and unit:
+            feats.add("convolve:float-kernel:constant-signal,kernel-sums-to-one-up-to-rounding")
+        if not inq:
+            feats.add("convolve:float-kernel:n<m(model-only)")
+        mdl = {"values": "lean convolvePad of the returned weights (exact)", "within": tol}
+        return outcome(impl, mdl, spec, spec_ok=(not inq) or core.canon(impl) == core.canon(spec), model_ok=model_ok,
+                       hyp=inq, features=feats)
+
+    # -- class "history": the same array OBJECTS over several calls - equal arguments twice with the first result
+    #    edited in place in between, the kernel / signal arrays overwritten with new content and passed again
+    HIST_RESULT_EDITS = ["times-3-plus-1", "zeros", "nan", "reverse"]
+
+    def eval_history(self, case, ctx):
+        from pewlib.process import convolve as cv
+
+        fn, steps = case["fn"], case["steps"]
+        if fn not in ("convolve", "deconv") or not steps:
+            return outcome({}, {}, {}, spec_ok=True, model_ok=True, undetermined=True, features=["history:outside-domain"])
+        xden, pden = (4, 32) if fn == "convolve" else (1, 8)
+        arrs = {}
+        impl, model, spec = [], [], []
+        spec_ok = model_ok = True
+        feats = {"history", "history:" + fn, f"history:{fn}:steps={len(steps)}"}
+
+        def put(key, vals):
+            """the same array object as in the step before when the length allows it (np.copyto), else a new one"""
+            a = arrs.get(key)
+            if a is not None and a.shape == (len(vals),):
+                np.copyto(a, np.array(vals))
+                feats.add(f"history:{fn}:{key}-array-object-reused")
+            else:
+                arrs[key] = a = np.array(vals)
+            return a
+
+        prev = None
+        for st in steps:
+            xq = [Fraction(v, xden) for v in st["x"]]
+            pq = [Fraction(v, pden) for v in st["psf"]]
+            mode = st.get("mode", "pad" if fn == "convolve" else "valid")
+            if not xq or not pq or len(xq) < len(pq) or st.get("edit") not in self.HIST_RESULT_EDITS \
+                    or (fn == "deconv" and (4 * abs(pq[0]) < 5 * sum(abs(v) for v in pq[1:]) or mode not in ("valid", "same"))) \
+                    or (fn == "convolve" and (mode != "pad" or dtype_domain("float64", "float64", xq, pq) is not None)):
+                return outcome({}, {}, {}, spec_ok=True, model_ok=True, undetermined=True, features=["history:outside-domain"])
+            if prev == (st["x"], st["psf"], mode):
+                feats.add(f"history:{fn}:equal-arguments-again")
+            prev = (st["x"], st["psf"], mode)
+            try:
+                if fn == "convolve":
+                    rep = ctx.driver.call("c18.convolve", x=[core.rat(v) for v in xq], psf=[core.rat(v) for v in pq])
+                    xa, pa = put("signal", [float(v) for v in xq]), put("kernel", [float(v) for v in pq])
+                    res = cv.convolve(xa, pa, mode="pad")
+                    vals = [float(v) for v in res]
+                    want = [fl(v) for v in rep["model"]]
+                    sp = rep["spec"]
+                    ok_m = [v.hex() for v in vals] == [v.hex() for v in want]
+                    ok_s = len(vals) == sp["length"] and all(k < len(vals) and vals[k].hex() == fl(v).hex() for k, v in sp["interior"]) \
+                        and (sp["constant"] is None or all(v.hex() == fl(sp["constant"]).hex() for v in vals))
+                else:
+                    rep = ctx.driver.call("c18.deconv", x=[core.rat(v) for v in xq], psf=[core.rat(v) for v in pq])
+                    ca, pa = put("signal", [fl(v) for v in rep["c"]]), put("kernel", [float(v) for v in pq])
+                    res = cv.deconvolve(ca, pa, mode=mode)
+                    vals = [float(v) for v in res]
+                    tol = TOL64 * (1 + max(abs(float(v)) for v in xq))
+                    lead = [fl(v) for v in rep["spec"]]
+                    want = [fl(v) for v in (rep["model"] if mode == "valid" else rep["model_same"])]
+                    xs = [float(v) for v in xq]
+                    got = vals if mode == "valid" else vals[: len(lead)]
+                    ok_s = len(lead) <= len(got) <= len(xs) and all(abs(a - b) <= tol for a, b in zip(got, xs))
+                    ok_m = bool(rep["terminates"]) and len(vals) == len(want) and all(abs(a - b) <= tol for a, b in zip(vals, want))
+                # the caller now edits the returned array in place
+                ed = st["edit"]
+                if isinstance(res, np.ndarray) and res.size:
+                    if ed == "times-3-plus-1":
+                        res *= 3.0
+                        res += 1.0
+                    elif ed == "zeros":
+                        res[...] = 0.0
+                    elif ed == "nan":
+                        res[...] = np.nan
+                    else:
+                        res[...] = res[::-1].copy() + 0.5
+                feats.add(f"history:{fn}:result-edited:{ed}")
+            except Exception as e:
+                return outcome({"raises": type(e).__name__}, {}, {}, spec_ok=False, model_ok=False, features=["history:raises"])
+            impl.append([v.hex() for v in vals])
+            model.append([v.hex() for v in want])
+            spec.append("as for a single call" if ok_s else "violated")
+            spec_ok, model_ok = spec_ok and ok_s, model_ok and ok_m
+        return outcome({"steps": impl}, {"steps": model}, {"steps": spec}, spec_ok=spec_ok, model_ok=model_ok, features=feats)
 
     @staticmethod
     def dtype_features(op, xdt, pdt, out):
@@ -1002,13 +1431,13 @@ class C18(Prop):
         mdl = {"length": len(model), "values": model if term else "not compared"}
         return outcome(impl, mdl, {}, spec_ok=True, model_ok=model_ok, hyp=False, features=feats)
 
-    def special(self, case, ctx, name, impl_fn, true_fn, ok_fn, model_op=None, model_rel=1e-10, model_max=1e6, model_abs=1e-300):
+    def special(self, case, ctx, name, impl_fn, true_fn, ok_fn, model_op=None, model_rel=1e-10, model_max=1e6, model_abs=1e-300, model_min=1e-30):
         xs = [float(x) for x in case["xs"]]
         vals = impl_fn(xs)
         bad, badm = [], []
         exact = {}
         if model_op is not None:
-            idx = [i for i, x in enumerate(xs) if 0 < abs(x) <= model_max and abs(x) >= 1e-30 or x == 0]
+            idx = [i for i, x in enumerate(xs) if 0 < abs(x) <= model_max and abs(x) >= model_min or x == 0]
             if idx:
                 rep = ctx.driver.call(model_op, xs=[core.rat(xs[i]) for i in idx])
                 exact = {i: fl(v) for i, v in zip(idx, rep["model"])}
@@ -1160,7 +1589,7 @@ class C18(Prop):
         gtol = GAMMA_REL + (SINGLE_BUDGET if ty_single(ty) else 0.0)
         impl, model, spec, sok, mok, feats = self.special(
             case, ctx, "gamma", run, math.gamma, lambda v, t: abs(v - t) <= gtol * abs(t), "c18.gamma",
-            model_rel=SINGLE_BUDGET if ty_single(ty) else 1e-10, model_max=1e3)
+            model_rel=SINGLE_BUDGET if ty_single(ty) else 1e-10, model_max=1e3, model_min=1e-310)
         xs = [float(x) for x in case["xs"]]
         # integer arguments, whatever type carries them: the Lean specification Gamma(n) = (n - 1)! (the model equals it
         # exactly: gammaApprox_nat) - no library gamma function involved
@@ -1190,10 +1619,12 @@ class C18(Prop):
         return outcome(impl, model, spec, spec_ok=sok, model_ok=mok, features=feats)
 
     @staticmethod
-    def kernel_domain(name, size, args, axq, lim=600):
+    def kernel_domain(name, size, args, axq, lim=None):
         """None when the parameters lie in the documented domain and the exact axis inside the density's support
         (the property's 'density finite on that axis'); else the reason.  Generated cases always pass; this keeps
-        evaluate sound for cases a shrinker or a hand-written replay produces."""
+        evaluate sound for cases a shrinker or a hand-written replay produces.  lim = None (double precision): whether
+        the sampled densities have a positive finite float sum is decided by the Lean tail decision (c18.kernel), not
+        here; lim = 70 (a single-precision parameter): the exponent limit of float32."""
         if size < 2 or not all(isinstance(v, (int, float)) and math.isfinite(v) for v in args):
             return "size < 2 or non-finite parameter"
         lo, hi = min(axq), max(axq)
@@ -1201,12 +1632,12 @@ class C18(Prop):
             if size < 3 or args[0] < 1 or args[1] < 1 or lo < 0 or hi > 1:
                 return "beta: shapes >= 1, >= 3 points, axis inside [0, 1]"
         elif name == "exponential":
-            if args[0] <= 0 or lo < 0 or args[0] * float(lo) > lim:
+            if args[0] <= 0 or lo < 0 or (lim is not None and args[0] * float(lo) > lim):
                 return "exponential: lambda > 0, axis inside x >= 0, density above the underflow range"
         elif name in POS_KERNELS:
             if args[0] <= 0 or lo <= 0 or (name == "inversegamma" and args[1] <= 0):
                 return name + ": positive parameters, axis inside x > 0"
-            if name == "inversegamma" and lim < 600 and (args[0] + 1) * max(0.0, -math.log10(float(lo))) > 36:
+            if name == "inversegamma" and lim is not None and lim < 600 and (args[0] + 1) * max(0.0, -math.log10(float(lo))) > 36:
                 return "inversegamma: x ** (-alpha - 1) overflows in single precision at the first axis point"
         elif name == "triangular":
             if not (args[0] <= 0 <= args[1] and args[0] < args[1]):
@@ -1214,9 +1645,11 @@ class C18(Prop):
         else:
             if args[0] <= 0:
                 return name + ": width > 0"
-            d = float(min(abs(v - Fraction(args[1])) for v in axq)) / args[0]      # nearest axis point, in widths
             if name == "super_gaussian" and not (args[2] == int(args[2]) and 1 <= args[2] <= 16):
                 return "super_gaussian: integer power"
+            if lim is None:
+                return None
+            d = float(min(abs(v - Fraction(args[1])) for v in axq)) / args[0]      # nearest axis point, in widths
             expo = {"laplace": d, "normal": 0.5 * d * d}.get(name) if name != "super_gaussian" else \
                 0.5 * d ** (2 * int(args[2])) if d < 1e3 else math.inf
             if expo > lim:
@@ -1259,18 +1692,53 @@ class C18(Prop):
             return [p[0] for p in pairs], [p[1] for p in pairs]
         return conv
 
+    # ---- histories of the kernel generators: what the caller does to a returned kernel before asking again
+    HIST_EDITS = ["scale-weights", "shift-axis", "zero-everything", "reverse-weights", "nan-weights"]
+    HIST_AGAIN = ["same-objects", "python-int-where-whole", "numpy-float64"]
+
+    @staticmethod
+    def hist_edit(raw, edit):
+        """edit a returned kernel IN PLACE, the way a caller may (peak-normalise, move the axis, clear, flip)"""
+        if edit == "scale-weights":
+            raw[:, 1] *= 3.0
+        elif edit == "shift-axis":
+            raw[:, 0] += 1.0
+        elif edit == "zero-everything":
+            raw[...] = 0.0
+        elif edit == "reverse-weights":
+            raw[:, 1] = raw[::-1, 1].copy()
+            raw[0, 1] += 0.25
+        elif edit == "nan-weights":
+            raw[:, 1] = np.nan
+
+    @staticmethod
+    def hist_again(vals, how):
+        """equal arguments for the second call: the same objects, or hash-equal numbers of another type"""
+        if how == "python-int-where-whole":
+            return [int(v) if isinstance(v, float) and v == int(v) and abs(v) < 2 ** 53 else v for v in vals]
+        if how == "numpy-float64":
+            return [np.float64(v) if isinstance(v, float) else v for v in vals]
+        return list(vals)
+
     def eval_kernel(self, case, ctx):
         from pewlib.process import convolve as cv
 
         name, size, args, scale, shift = case["name"], case["size"], case["args"], case["scale"], case["shift"]
         axis_kind = "unit" if name == "beta" else "pos" if name in POS_KERNELS else "sym"
+        if not all(isinstance(v, (int, float)) and math.isfinite(v) for v in list(args) + [scale, shift]):
+            return outcome({}, {}, {}, spec_ok=True, model_ok=True, undetermined=True, features=["kernel:outside-domain"],
+                           note="a parameter is not a finite number")
         rep = ctx.driver.call("c18.axis", kind=axis_kind, size=size, scale=core.rat(scale), shift=core.rat(shift))
         axq = [unrat(v) for v in rep["x"]]
         if size == 1:
             return self.eval_kernel_one(case, ctx, axq)
         ptype, stype = case.get("ptype", "float"), case.get("sizetype", "int")
         typed = "ptype" in case or "sizetype" in case
+        hist = case.get("history")
         why = self.param_type_domain(name, size, args, ptype, stype) if typed else None
+        if why is None and hist is not None and (typed or hist.get("edit") not in self.HIST_EDITS
+                                                 or hist.get("again") not in self.HIST_AGAIN):
+            why = "history: unknown edit / repeat, or combined with typed parameters"
         targs, tscale, tshift, tsize, conv = args, scale, shift, size, []
         if why is None and typed:
             pconv = self.param_conv(ptype, size)
@@ -1279,11 +1747,37 @@ class C18(Prop):
         # a single-precision parameter anywhere: numpy forms the axis and / or the density in float32 (exp underflows
         # below -87 instead of -745; values, axis and unit sum hold to single-precision rounding)
         single = ptype == "float32" and any(conv)
-        AX, SUM, WT, EDGE = (1e-6, 1e-5, 1e-5, 1e-5) if single else (1e-12, 1e-9, KERNEL_TOL, 1e-9)
+        AX, WT, EDGE = (1e-6, 1e-5, 1e-5) if single else (1e-12, KERNEL_TOL, 1e-9)
+        # unit sum: y / y.sum() in double precision is within (u + eps) / (1 - eps), u = 2**-53 per quotient,
+        # eps <= (n - 1) 2**-53 for any order of summation (normalise_approx), whatever the magnitude of the densities
+        SUM = 1e-5 if single else 8 * (size + 4) * 2.0 ** -53
         if why is None:
-            why = self.kernel_domain(name, size, args, axq, lim=70 if single else 600)
+            why = self.kernel_domain(name, size, args, axq, lim=70 if single else None)
+        feats = set()
+        # the eight generators built from exp / log / powers: the model's weights and the TAIL DECISION (Lean): does
+        # a double-precision evaluation of the densities have a positive finite sum, whatever order it multiplies in
+        rk = tail = None
+        if why is None and name != "triangular":
+            margs = [float(int(v)) if name == "super_gaussian" and i == 2 else v for i, v in enumerate(args)]
+            rk = ctx.driver.call("c18.kernel", name=name, size=size, args=[core.rat(v) for v in margs],
+                                 scale=core.rat(scale), shift=core.rat(shift))
+            tail = rk["tail"]
+            if tail["overflow"]:
+                why = "an intermediate value of the density leaves the double range on the axis (inf, inf * 0 = nan)"
+                feats.add("kernel:tail:intermediate-overflow(undetermined)")
+                try:
+                    o = np.asarray(getattr(cv, name)(tsize, *targs, scale=tscale, shift=tshift), dtype=float)
+                    if not np.all(np.isfinite(o)):
+                        feats.add("kernel:tail:intermediate-overflow:pewlib-returns-nan(recorded only)")
+                except Exception:      # noqa: BLE001
+                    feats.add("kernel:tail:intermediate-overflow:pewlib-raises(recorded only)")
+            elif not tail["robust"]:
+                why = "no axis point carries a density robustly above the underflow threshold of double precision"
+                feats.add("kernel:tail:underflow-band-or-all-zero(undetermined)")
+        call = lambda a, sc, sh: getattr(cv, name)(tsize, *a, scale=sc, shift=sh)
         try:
-            out = np.asarray(getattr(cv, name)(tsize, *targs, scale=tscale, shift=tshift), dtype=float) if why is None else None
+            raw = call(targs, tscale, tshift) if why is None else None
+            out = np.asarray(raw, dtype=float) if why is None else None
         except Exception as e:
             return outcome({"raises": type(e).__name__}, {}, {}, spec_ok=False, model_ok=False, features=["kernel:raises"])
         my = None
@@ -1294,53 +1788,94 @@ class C18(Prop):
             thyp = bool(r2["hyp"])      # the hypotheses of triangular_spec: a < b and an axis point strictly inside (a, b)
             # normalisation needs an axis point that carries density whichever way the float axis rounds: one clear of
             # the support edges, or the mode 0 itself when it sits on the exact axis AND the returned axis holds 0.0 there
-            mrg = Fraction(EDGE) * max([1] + [abs(v) for v in axq])
+            mrg = Fraction(EDGE) * max(abs(v) for v in axq)
             a_, b_ = Fraction(args[0]), Fraction(args[1])
             xr = [float(v) for v in out[:, 0]] if out.ndim == 2 and out.shape == (size, 2) else [None] * size
             if not any(my) or not (any(a_ + mrg <= v <= b_ - mrg for v in axq)
                                    or any(v == 0 and xi == 0.0 for v, xi in zip(axq, xr))):
                 why = "triangular: no axis point robustly inside the support (normalisation by a zero sum)"
+            # the density is a quotient of products of the parameters: keep a * (a - b), b * (b - a) inside the normal range
+            mags = [abs(v) for v in (a_, b_, b_ - a_) if v != 0] + [abs(v) for v in axq if v != 0]
+            if why is None and (max(mags) > Fraction(10) ** 150 or min(mags) < Fraction(1, 10 ** 150)):
+                why = "triangular: a product of the parameters may leave the normal range of double precision"
         if why is not None:
-            return outcome({}, {}, {}, spec_ok=True, model_ok=True, undetermined=True, features=["kernel:outside-domain"], note=why)
+            return outcome({}, {}, {}, spec_ok=True, model_ok=True, undetermined=True,
+                           features=feats | {"kernel:outside-domain"}, note=why)
         ax = [float(v) for v in axq]
-        span = max([1.0] + [abs(v) for v in ax])
-        shape_ok = out.ndim == 2 and out.shape == (size, 2)
-        x = [float(v) for v in out[:, 0]] if shape_ok else []
-        y = [float(v) for v in out[:, 1]] if shape_ok else []
-        axis_ok = shape_ok and all(abs(a - b) <= AX * span for a, b in zip(x, ax))
-        impl = {"shape": list(out.shape), "axis_matches_linspace": bool(axis_ok),
-                "finite": bool(shape_ok and all(math.isfinite(v) for v in y)),
-                "non_negative": bool(shape_ok and all(v >= 0 for v in y)),
-                "sums_to_one": bool(shape_ok and abs(math.fsum(y) - 1.0) <= SUM)}
+        span = max([1e-300] + [abs(v) for v in ax]) if name == "triangular" else max([1.0] + [abs(v) for v in ax])
+        if name != "triangular" and rk["y"] is not None:
+            mw = [fl(v) for v in rk["y"]]
+            # in the subnormal range an intermediate product is known to one step of the subnormal grid only (magnified
+            # by the factors above 1 multiplied in afterwards): each weight then moves by up to (n + 1) such steps
+            # relative to the sum
+            dsum = unrat(tail["dsum"])
+            wtol = WT + float(4 * (size + 1) * unrat(tail["amp"]) * Fraction(1, 2 ** 1074) / dsum)
+
+        def observe(o):
+            """everything the property says about one returned array, and its comparison with the model"""
+            shape_ok = o.ndim == 2 and o.shape == (size, 2)
+            x = [float(v) for v in o[:, 0]] if shape_ok else []
+            y = [float(v) for v in o[:, 1]] if shape_ok else []
+            axis_ok = shape_ok and all(abs(a - b) <= AX * span for a, b in zip(x, ax))
+            impl = {"shape": list(o.shape), "axis_matches_linspace": bool(axis_ok),
+                    "finite": bool(shape_ok and all(math.isfinite(v) for v in y)),
+                    "non_negative": bool(shape_ok and all(v >= 0 for v in y)),
+                    "sums_to_one": bool(shape_ok and all(math.isfinite(v) for v in y) and abs(math.fsum(y) - 1.0) <= SUM)}
+            model, model_ok, valued = {"axis": "lean linspace", "values": "not compared"}, axis_ok, False
+            if name == "triangular" and shape_ok:
+                # an axis point within rounding of a kink / support edge may fall on either side of it in floating point
+                # (and the density jumps at 0 when a == 0 or b == 0): compare value by value only when every such point
+                # is clear of the edges, or sits on one exactly both in the exact axis and in the returned one
+                edges = [Fraction(args[0]), Fraction(args[1]), Fraction(0)]
+                edge = any(abs(float(v - e)) <= EDGE * span and not (v == e and xi == float(e))
+                           for v, xi in zip(axq, x) for e in edges)
+                model_ok = axis_ok and (edge or all(abs(a - b) <= (WT if single else 1e-9) for a, b in zip(y, my)))
+                model = {"axis": "lean linspace", "values": "lean triangular" + (" (edge within rounding: skipped)" if edge else "")}
+            elif shape_ok:
+                # the generator as modelled (density formula as coded, normalisation, stacking), the opaque exp / log /
+                # power / sqrt(2 pi) evaluated by the driver to 40 digits; weight by weight
+                if rk["y"] is None:
+                    model = {"axis": "lean linspace", "values": "a modelled value left the domain of exp / log / power: not compared"}
+                else:
+                    worst = max(abs(a - b) for a, b in zip(y, mw)) if all(math.isfinite(v) for v in y) else math.inf
+                    model_ok = axis_ok and worst <= wtol
+                    model = {"axis": "lean linspace", "values": "lean " + name + " (40-digit exp/log/pow)",
+                             "weights_within": wtol if worst <= wtol else worst}
+                    valued = True
+            return impl, model, model_ok, x, valued
+
+        impl, model, model_ok, x, valued = observe(out)
         spec = {"shape": [size, 2], "axis_matches_linspace": True, "finite": True, "non_negative": True, "sums_to_one": True}
-        model, model_ok, valued = {"axis": "lean linspace", "values": "not compared"}, axis_ok, False
-        if name == "triangular" and shape_ok:
-            # an axis point within rounding of a kink / support edge may fall on either side of it in floating point
-            # (and the density jumps at 0 when a == 0 or b == 0): compare value by value only when every such point is
-            # clear of the edges, or sits on one exactly both in the exact axis and in the returned one
-            edges = [Fraction(args[0]), Fraction(args[1]), Fraction(0)]
-            edge = any(abs(float(v - e)) <= EDGE * span and not (v == e and xi == float(e))
-                       for v, xi in zip(axq, x) for e in edges)
-            model_ok = axis_ok and (edge or all(abs(a - b) <= (WT if single else 1e-9) for a, b in zip(y, my)))
-            model = {"axis": "lean linspace", "values": "lean triangular" + (" (edge within rounding: skipped)" if edge else "")}
-        elif shape_ok:
-            # the generator as modelled (density formula as coded, normalisation, stacking), the opaque exp / log / power /
-            # sqrt(2 pi) evaluated by the driver to 40 digits; weight by weight
-            margs = [float(int(v)) if name == "super_gaussian" and i == 2 else v for i, v in enumerate(args)]
-            rk = ctx.driver.call("c18.kernel", name=name, size=size, args=[core.rat(v) for v in margs],
-                                 scale=core.rat(scale), shift=core.rat(shift))
-            if rk["y"] is None:
-                model = {"axis": "lean linspace", "values": "a modelled value left the domain of exp / log / power: not compared"}
-            else:
-                my = [fl(v) for v in rk["y"]]
-                worst = max(abs(a - b) for a, b in zip(y, my)) if all(math.isfinite(v) for v in y) else math.inf
-                model_ok = axis_ok and worst <= WT
-                model = {"axis": "lean linspace", "values": "lean " + name + " (40-digit exp/log/pow)",
-                         "weights_within": WT if worst <= WT else worst}
-                valued = True
-        feats = {"kernel:" + name, "kernel:size=" + (str(size) if size <= 3 else "4+")}
+        if hist is not None:
+            # HISTORY: the caller edits the returned kernel in place and asks again with equal arguments; the property
+            # speaks of every call's return value, so the second array must meet it (and the model) like the first
+            self.hist_edit(raw, hist["edit"])
+            a2, sc2, sh2 = (lambda v: (v[:-2], v[-2], v[-1]))(self.hist_again(list(targs) + [tscale, tshift], hist["again"]))
+            try:
+                out2 = np.asarray(call(a2, sc2, sh2), dtype=float)
+            except Exception as e:
+                return outcome({"raises_on_second_call": type(e).__name__}, {}, {}, spec_ok=False, model_ok=False,
+                               features=["kernel:history:raises"])
+            impl2, model2, ok2, _, _ = observe(out2)
+            impl, spec, model = {**impl, "second_call": impl2}, {**spec, "second_call": dict(spec)}, {**model, "second_call": model2}
+            model_ok = model_ok and ok2
+            feats |= {"kernel:history", "kernel:history:" + name, "kernel:history:edit:" + hist["edit"],
+                      "kernel:history:again:" + hist["again"]}
+        feats |= {"kernel:" + name, "kernel:size=" + (str(size) if size <= 3 else "4+" if size < 1000 else "1000+")}
         if valued:
             feats.add("kernel:weights-compared-with-the-model")
+        if tail is not None:
+            dmax = unrat(tail["dmax"])
+            if dmax < Fraction(1, 10 ** 200):
+                band = ("subnormal(<2.2e-308)" if dmax < Fraction(1, 2 ** 1022) else
+                        "tiny-normal(2.2e-308..1e-300)" if dmax < Fraction(1, 10 ** 300) else "1e-300..1e-200")
+                sband = "subnormal" if dsum < Fraction(1, 2 ** 1022) else "normal"
+                feats |= {"kernel:tail", "kernel:tail:" + name, "kernel:tail:largest-density-" + band,
+                          "kernel:tail:sum-of-densities-" + sband}
+                if dsum < Fraction(1, 2 ** 1022):
+                    feats.add("kernel:tail:sum-of-densities-subnormal:" + name)
+                if any(v == 0.0 for v in out[:, 1]):
+                    feats.add("kernel:tail:some-weights-exactly-0")
         if scale != 1.0:
             feats.add("kernel:scaled")
         if shift not in (0.0, 1e-6):
@@ -1417,7 +1952,9 @@ class C18(Prop):
             my = [unrat(v) for v in r2["y"]]
             a_, b_, x0 = Fraction(args[0]), Fraction(args[1]), axq[0]
             if my == [1] and a_ < x0 < b_ and x0 != 0 and out.shape == (1, 2):     # clear of the kinks: the weight is 1
-                impl["weights"], model["weights"] = [float(out[0, 1])], [1.0]
+                # y / y exactly, or y * (1 / y) within an ulp: size 1 is outside the property, a rounding is not a difference
+                w = float(out[0, 1])
+                impl["weights"], model["weights"] = [1.0 if abs(w - 1.0) <= 2.0 ** -50 else w], [1.0]
                 feats.add("kernel:size=1:triangular-weight")
         return outcome(impl, model, {}, spec_ok=True, hyp=False, features=feats)
 
